@@ -111,7 +111,7 @@ pub fn run(ctx: &Ctx) {
     ctx.assume("LmsH2 (type code 1) is enabled through the verif-hooks feature; production builds reject it");
     ctx.assume("trees of height >= 15 are never built");
     let budget = ctx.tier.pick(2_500_000u64, 40_000_000u64);
-    let cases = ctx.tier.pick(640u32, 12_000u32);
+    let cases = ctx.tier.pick(1_200u32, 16_000u32);
     let sel = std::sync::atomic::AtomicU32::new(0);
     ctx.random(
         "sign_verify",
